@@ -792,6 +792,26 @@ def gen_namespace(rng, nsname, thorough, deps, want_blocks=True, main=True, gobj
            'includes': ['%s-%s' % (d['ns'], d['version']) for d in deps],
            'options': [], 'file_order': files, 'order_before': order_before, 'decls': decls,
            'comments': comments, 'deps': deps, '_records': records, '_foreign_types': foreign}
+    if main and rng.random() < 0.2:
+        # two symbol prefixes of which one extends the other (gtk / gtk_x style): for a symbol both
+        # match, the one named first on the command line wins - whichever that is, on every run
+        sp = [p, p + '_ex']
+        rng.shuffle(sp)
+        job['sym_prefixes'] = sp
+        f = rng.choice(apis)
+        for nm in rng.sample(['frob', 'init', 'get_default', 'version'], rng.randint(1, 3)):
+            decls.append({'k': 'function', 'name': '%s_ex_%s' % (p, nm), 'ret': ['basic', 'int'], 'params': [],
+                          'file': f, 'line': lines.take(f)})
+        decls.append({'k': 'define', 'name': '%s_EX_LIMIT' % p.upper(), 'value': 7, 'file': f, 'line': lines.take(f)})
+        if rng.random() < 0.5:
+            ip = [P, P + 'Ex']
+            rng.shuffle(ip)
+            job['id_prefixes'] = ip
+            decls.append({'k': 'typedef_struct', 'name': P + 'ExGlyph', 'tag': '_' + P + 'ExGlyph',
+                          'members': [{'name': 'code', 'type': ['basic', 'int'], 'private': False}],
+                          'file': f_typedefs, 'line': lines.take(f_typedefs, 2)})
+            decls.append({'k': 'function', 'name': '%s_ex_glyph_measure' % p, 'ret': ['basic', 'int'],
+                          'params': [['glyph', ['ptr', ['named', P + 'ExGlyph']]]], 'file': f, 'line': lines.take(f)})
     if crayon:
         job['includes'] = job['includes'] + ['Crayon-1.0']
     if dup_blocks:
